@@ -31,7 +31,7 @@ MANIFEST = {
     "design_ref": "3 (C01)",
 }
 
-PLANS_Q = ["scan", "custom", "neverclose", "nested", "fly", "clearcp", "two_runs", "rw_fail", "count"]
+PLANS_Q = ["scan", "custom", "neverclose", "nested", "fly", "clearcp", "two_runs", "rw_fail", "count", "mon_closeleft"]
 PLANS_T = PLANS_Q + ["grid", "list_scan", "rel_scan", "norun"]
 SHARD_TIMEOUT = {"quick": 900, "thorough": 3600}
 worker_init = sweepcheck.worker_init
